@@ -137,12 +137,18 @@ def _expected(plan, obs):
             elif ref == '?':
                 a[p].append((None, pr, fs))
         att.append(a)
-        e = dict(planned)
+        e = {hk[1]: planned[hk[1]] for i, pg in enumerate(plan['pages']) if i == sn['page']
+             for hk in pg.get('hooks', [])}
         cfg = sn['config']
         for d in plan.get('cls', []):
             dd = ca.declared(d, cfg)
             dd['out'] = d['out']
             e[d['id']] = dd
+        # a malformed entry `<box>.<tool>` (no argument name) makes `populate` raise half way through that
+        # toolbox's entries; its tools are then set up from what had been read so far and the request fails: the
+        # application's own configuration error — no demand on how those tools' hooks are declared
+        broken = {d['box'] for pg in plan['pages'] for d in pg.get('decls', [])
+                  if any(not k for _, k, _ in d.get('conf', []))}
         for i, pg in enumerate(plan['pages']):
             for d in pg.get('decls', []):
                 if d['ch'] in ('hobj', 'hbare', 'hstr') and i != sn['page']:
@@ -150,6 +156,8 @@ def _expected(plan, obs):
                 dd = ca.declared(d, cfg)
                 if not dd['hook']:
                     continue
+                if d.get('box') in broken:
+                    dd.update({'prio': ca.AMBIG, 'fs': None, 'enabled': None})
                 dd['out'] = d['out']
                 e[d['id']] = dd
         exp.append(e)
@@ -599,6 +607,22 @@ def corpus_plans():
 
 
 def run(ctx):
+    from . import c09_cov
+    cov = c09_cov.Coverage()
+    measuring = cov.start()
+    try:
+        _run(ctx)
+    finally:
+        cov.stop()
+    if measuring:
+        missing = cov.missing()
+        ctx.extra['anchored_functions_measured'] = len(cov.codes)
+        ctx.extra['anchored_lines_not_executed'] = missing
+    else:
+        ctx.extra['anchored_lines_not_executed'] = ['(not measured: sys.monitoring unavailable)']
+
+
+def _run(ctx):
     for e in ctx.known:
         if e.get('status') == 'known':
             check_plans(ctx, [e['witness']['plan']], label='known')
